@@ -9,7 +9,7 @@ pub fn prop() -> Prop {
     Prop {
         id: "C06",
         level: "exploration",
-        rule: "every single bit of a valid packet flipped; each reserved bit individually set; all 16x16 header/footer nibbles; the four counters over all combinations of 12 boundary values (ties and all orderings); low-28 agreement variants; every field at {0,1,mid,max-1,max}; lengths 0..=200; random near-valid packets. Library vs reference accept/reject; accepted packets re-encoded from accessors and counter ordering asserted. Non-trivial = distinct 80-byte inputs with valid 0x8/0xE marks. Also: every pair of reserved bits (5 460 packets), each of the 28 trig_out bits wrong in header / footer / both with ordered counters, header and footer deviating by -d/+d, +d/+d, d/2d, lengths congruent to 80 modulo 2^8 and 2^16, alignment independence. Also (round 4): every byte offset x width 1/2/4 set to every integer literal found in the library sources (read from the tree under test) or a boundary value, alone and jointly with every single-bit flip and every byte forced to 00/FF elsewhere (about 10^7 packets), accept/reject against the reference and round trip. Round 5: every reserved bit and every single bit on top of all 8 tie patterns of the four counters. Round 6: valid packet followed / preceded by a checksum of itself (CRC-32C plain / inverted, word sum, xor, byte sum; 2- and 4-byte, either byte order). Round 7: one word copied onto another (every ordered pair of the 20 words) on a valid base and on bases breaking the counter ordering in each way.",
+        rule: "every single bit of a valid packet flipped; each reserved bit individually set; all 16x16 header/footer nibbles; the four counters over all combinations of 12 boundary values (ties and all orderings); low-28 agreement variants; every field at {0,1,mid,max-1,max}; lengths 0..=200; random near-valid packets. Library vs reference accept/reject; accepted packets re-encoded from accessors and counter ordering asserted. Non-trivial = distinct 80-byte inputs with valid 0x8/0xE marks. Also: every pair of reserved bits (5 460 packets), each of the 28 trig_out bits wrong in header / footer / both with ordered counters, header and footer deviating by -d/+d, +d/+d, d/2d, lengths congruent to 80 modulo 2^8 and 2^16, alignment independence. Also (round 4): every byte offset x width 1/2/4 set to every integer literal found in the library sources (read from the tree under test) or a boundary value, alone and jointly with every single-bit flip and every byte forced to 00/FF elsewhere (about 10^7 packets), accept/reject against the reference and round trip. Round 5: every reserved bit and every single bit on top of all 8 tie patterns of the four counters. Round 6: valid packet followed / preceded by a checksum of itself (CRC-32C plain / inverted, word sum, xor, byte sum; 2- and 4-byte, either byte order). Round 7: one word copied onto another (every ordered pair of the 20 words) on a valid base and on bases breaking the counter ordering in each way. Round 8: two defects at once (every reserved bit, bad marks, on top of every way of breaking the counter ordering).",
         assumptions: &["reference TRG v3 layout (harness/src/refs.rs::trg_ref) transcribes the statement"],
         profiles: both,
         shards: shards16,
